@@ -4,6 +4,7 @@ import KoordVerif.Proofs.C04ExtGroup
 import KoordVerif.Proofs.C04ExtRace
 import KoordVerif.Proofs.C04ExtWire
 import KoordVerif.Proofs.C04ExtCreate
+import KoordVerif.Proofs.C04ExtGone
 /-
 C04 — gang scheduling is all-or-nothing across the whole gang group (property theorems).
 
@@ -58,6 +59,9 @@ counts (waiting, or waiting + bound under waiting-and-running).
    delivered_delete_removes     after a delivered delete — the object OR a re-list tombstone — the pod is in none of
                                 children / pending / waiting / bound of its gang
    delivered_delete_not_counted ... and is not counted by isGangValidForPermit any more
+   deleted_pod_stays_out        ... and it stays out of every set of every cached gang through ANY later history of
+                                events and calls for other pods (the harness' "gone" pods: what its release clause
+                                subtracts from the cache's sets is empty on the model, Proofs/C04ExtGone.lean)
    filtered_wiring_drops_tombstone   behind a type filter the tombstone never reaches onPodDelete
    tombstone_lost_counterexample     ... and Permit then releases with 2 live members of min 3 (only-waiting) / 1 of
                                 min 3 (waiting-and-running), where the code's wiring answers Wait
@@ -843,6 +847,10 @@ theorem delivered_delete_removes (s : State) (p : Pod) (id : GangId) (shape : Na
   rw [direct_wiring_forwards_understood shape _ hs] at hg
   exact podDel_removes s p id g hg
 
+/-- the hypothesis of `delivered_delete_removes` is satisfiable: the gang is still cached after the tombstone of a
+    waiting member has been delivered -/
+example : ∃ g, findGang (run init (ghostWaiting 0 0)).gangs 0 = some g ∧ g.ps.waiting = [1] := by decide
+
 /-- the sizes isGangValidForPermit reads after a delivered delete count live members only: the deleted pod is in
     neither list (the lists are duplicate-free in every reachable state, `nodupSets_all_histories`) -/
 theorem delivered_delete_not_counted (s : State) (p : Pod) (id : GangId) (shape : Nat) (hs : delUnderstood shape = true)
@@ -870,6 +878,22 @@ theorem tombstone_lost_counterexample :
     (step (run init (ghostBound 0)) (.permit 4 0)).2.verdict = 1 := by
   decide
 
+/-- After the delete event of pod `q` of gang `id` was handed over by the registered handler — the object or a re-list
+    tombstone — `q` is in none of children / pending / waiting / bound of ANY cached gang, and it stays out through every
+    later history of informer events and scheduling calls that are for other pods (any order, any gangs).
+    `hother`: the pod was in no other gang's sets (a pod's gang does not change during its life). -/
+theorem deleted_pod_stays_out (s : State) (q : Pod) (id : GangId) (shape : Nat) (hs : delUnderstood shape = true)
+    (hother : ∀ g ∈ s.gangs, g.id ≠ id → g.ps.Absent q) (ops : List Op) (hops : ∀ op ∈ ops, op.pod? ≠ some q) :
+    ∀ g ∈ (run (step s (deliverDel 0 shape (.podDel q id))).1 ops).gangs, g.ps.Absent q := by
+  rw [direct_wiring_forwards_understood shape _ hs]
+  exact run_keeps_absent q ops _ hops (podDel_makes_absent q s id hother)
+
+/-- the hypotheses are satisfiable on a history in which the pod held resources: pod 2 waits at Permit, is deleted
+    (tombstone), then pod 3 goes through Permit -/
+example : (∀ g ∈ (run init ((ghostWaiting 0 0).take 6)).gangs, g.id ≠ 0 → g.ps.Absent 2) ∧
+    (∃ g ∈ (run init ((ghostWaiting 0 0).take 6)).gangs, 2 ∈ g.ps.waiting) ∧
+    (∀ op ∈ [Op.permit 3 0], op.pod? ≠ some 2) := by decide
+
 /-! ## H. get-or-create of a Gang under racing informer goroutines -/
 
 theorem getOrCreate_atomic_unique (progs : List (GangId × CAct)) (sched : List Nat) :
@@ -891,6 +915,14 @@ theorem newGang_race_atomic_safe (progs : List (GangId × CAct)) (sched : List N
   unfold cachedGang
   rw [hinv.holds t ht (by omega)]
   exact hx
+
+/-- the hypothesis of `newGang_race_atomic_safe` is satisfiable: a schedule in which the two goroutines interleave at
+    every step ends with both done; the cached gang then has the pod and is initialised -/
+example : ((cStart raceProgs).run 1 raceSchedPodLost).quiescent ∧
+    cachedGang ((cStart raceProgs).run 1 raceSchedPodLost) 0 =
+      some { oid := 0, init := true, children := [7], pending := [7] } := by
+  unfold CConf.quiescent
+  decide
 
 theorem getOrCreate_split_counterexample :
     ((cStart raceProgs).run 2 raceSchedPodLost).quiescent ∧
